@@ -22,6 +22,7 @@ def rule_models(tier):
     rx_sets = {
         'norx': [],
         'rx1': [ma([A], [B], 1.5), ma([B], [A], 0.5)],
+        'rx_exhaust': [ma([A], [B], 2.0)],                                                # irreversible: the reactions run out mid-run
         'rx_rule_rate': [gen([A], [B], ('*', ID('p'), ID(A))), ma([B], [A], 0.5)],      # rate reads a rule-assigned parameter
         'rx_rule_species': [gen([A], [B], ('*', ('num', 0.4), ('*', ID(X), ID(A)))), ma([B], [A], 0.5)],  # rate reads a rule-assigned species
     }
